@@ -61,7 +61,7 @@ def make_items(tier, seed):
     push(rest_progs, rest)
     if tier == "thorough":
         return core + rest
-    return slice_quick(core + rest, seed, len(core), 500)
+    return slice_quick(core + rest, seed, len(core), 1500)
 
 
 def check_item(spec):
@@ -89,6 +89,10 @@ def check_item(spec):
     except refsem.Unsupported as e:
         res["cls"] = "accepted-unjudged" if spec["fam"] == "reject" else "ref-unsupported"
         res["note"] = str(e)
+        return res
+    except refsem.TypeMismatch as e:
+        res["cls"] = "judged"
+        res["findings"] = [{"kind": "accepted-type-mismatch", "what": "accepted although the returned value is not of the declared type (%s); expressions: %s" % (e, str(qf.expressions)[:120]), "cex": {}, "replayed": True}]
         return res
     except refsem.Undef:
         res["cls"] = "ref-undef"
